@@ -13,12 +13,17 @@ Conventions
   `Name.unpack` is one loop with the state `(currOff, ptr, name, newOff)` and
   explicit fuel; running out of fuel is the distinguished error `Err.fuel`
   (C37 proves it never happens with `unpackFuel`).
-* Writer side is in "writer style": each `packX` gets the position `pos`
-  (= `len(msg) - compressionOff` in Go) at which its output will be appended
-  and returns the bytes to append; Go packers only ever append to `msg`
-  and look only at `len(msg)`, the single exception is `fixLen`, which
-  back-patches the 2-byte Length field - modelled by computing the body
-  first and emitting the header with the final length.
+* Writer side is in "writer style": each `packX` gets the buffer `buf`
+  (= `msg[compressionOff:]` in Go) to which its output will be appended and
+  returns the bytes to append; Go packers only ever append to `msg`, look at
+  `len(msg)` and - `compressionDepth`, since the ptr-depth repair - at the
+  names already stored in it. The single exception is `fixLen`, which
+  back-patches the 2-byte Length field after the body has been packed behind
+  a placeholder; `packResource` packs the body behind the placeholder as Go
+  does, and checks that packing it behind the final Length gives the same
+  bytes (it does: pointer chains never lead into a Length field; a
+  difference would surface as `MODEL-FUEL`, i.e. as a D-tie mismatch).
+  Likewise the Builder writes the 12 header bytes only in `Finish`.
 * The compression map (`map[string]uint16`) is an association list with
   newest-first lookup (Go only inserts on a miss, so no key is ever updated).
 Not modelled: the Builder's section state machine (ErrNotStarted /
@@ -159,32 +164,56 @@ def lookup (k : Bytes) : CompMap → Option Nat
 /-- `byte(ptr>>8|0xC0), byte(ptr)` for a `uint16` ptr. -/
 def ptrBytes (p : Nat) : Bytes := [192 + p / 256 % 64, p % 256]
 
+/-- The loop of `compressionDepth`: number of pointers followed so far is `depth`
+(at most `maxCompressionPointers` = 10 are counted). -/
+def depthLoop (buf : Bytes) : Nat → Nat → Nat → Nat
+  | 0, _, depth => depth
+  | fuel + 1, off, depth =>
+    match buf.drop off with
+    | [] => depth
+    | c :: rest =>
+      if c / 64 = 0 then
+        if c = 0 then depth else depthLoop buf fuel (off + 1 + c) depth
+      else if c / 64 = 3 then
+        match rest with
+        | [] => depth
+        | c1 :: _ =>
+          if depth + 1 ≥ 10 then depth + 1
+          else depthLoop buf fuel (c % 64 * 256 + c1) (depth + 1)
+      else depth
+
+/-- `compressionDepth(msg, compressionOff, ptr)`: pointers to follow to read the name at `ptr`. -/
+def compressionDepth (buf : Bytes) (ptr : Nat) : Nat :=
+  depthLoop buf (11 * (buf.length + 2) + 140) ptr 0
+
 /-- The loop of `Name.pack`: `rest` = `n.Data[i:n.Length]`, `lab` = `n.Data[begin:i]`,
-`out` = bytes emitted for this name so far, `pos0` = position of the name. -/
-def packLoop (pos0 : Nat) : Bytes → Bytes → Bytes → Option CompMap → Except Err (Bytes × Option CompMap)
+`buf` = the message before this name, `out` = bytes emitted for this name so far. -/
+def packLoop (buf : Bytes) : Bytes → Bytes → Bytes → Option CompMap → Except Err (Bytes × Option CompMap)
   | [], _, out, comp => .ok (out ++ [0], comp)
   | c :: rest, lab, out, comp =>
     if c = 46 then
       if lab.length ≥ 64 then .error .segTooLong
       else if lab.length = 0 then .error .zeroSegLen
-      else packLoop pos0 rest [] (out ++ lab.length :: lab) comp
+      else packLoop buf rest [] (out ++ lab.length :: lab) comp
     else if lab.isEmpty then
       match comp with
       | some m =>
+        let newPtr := buf.length + out.length
+        let m' := if newPtr ≤ 16383 then (c :: rest, newPtr) :: m else m
         match lookup (c :: rest) m with
-        | some p => .ok (out ++ ptrBytes p, some m)
-        | none =>
-          let newPtr := pos0 + out.length
-          packLoop pos0 rest [c] out (some (if newPtr ≤ 16383 then (c :: rest, newPtr) :: m else m))
-      | none => packLoop pos0 rest [c] out none
-    else packLoop pos0 rest (lab ++ [c]) out comp
+        | some p =>
+          if compressionDepth (buf ++ out) p < 10 then .ok (out ++ ptrBytes p, some m)
+          else packLoop buf rest [c] out (some m')
+        | none => packLoop buf rest [c] out (some m')
+      | none => packLoop buf rest [c] out none
+    else packLoop buf rest (lab ++ [c]) out comp
 
-/-- `Name.pack`: bytes appended for `name` at position `pos`, and the new map. -/
-def packName (name : Bytes) (pos : Nat) (comp : Option CompMap) : Except Err (Bytes × Option CompMap) :=
+/-- `Name.pack`: bytes appended for `name` to the buffer `buf`, and the new map. -/
+def packName (name : Bytes) (buf : Bytes) (comp : Option CompMap) : Except Err (Bytes × Option CompMap) :=
   if name.length > 254 then .error .nameTooLong
   else if name.isEmpty || name.getLast? != some 46 then .error .nonCanonical
   else if name = [46] then .ok ([0], comp)
-  else packLoop pos name [] [] comp
+  else packLoop buf name [] [] comp
 
 /-! ## Header -/
 
@@ -307,23 +336,23 @@ def packParams : Option Nat → List (Nat × Bytes) → Except Err Bytes
       | .error e => .error e
 
 def packSVCB (prio : Nat) (target : Bytes) (params : List (Nat × Bytes)) : Except Err Bytes :=
-  match packName target 0 none with
+  match packName target [] none with
   | .error e => .error e
   | .ok (tb, _) =>
     match packParams none params with
     | .error e => .error e
     | .ok pb => .ok (u16 prio ++ tb ++ pb)
 
-/-- `ResourceBody.pack` at position `pos`. -/
-def packBody (b : Body) (pos : Nat) (comp : Option CompMap) : Except Err (Bytes × Option CompMap) :=
+/-- `ResourceBody.pack` onto the buffer `buf`. -/
+def packBody (b : Body) (buf : Bytes) (comp : Option CompMap) : Except Err (Bytes × Option CompMap) :=
   match b with
   | .a ip => .ok (ip, comp)
   | .aaaa ip => .ok (ip, comp)
-  | .ns n => packName n pos comp
-  | .cname n => packName n pos comp
-  | .ptr n => packName n pos comp
+  | .ns n => packName n buf comp
+  | .cname n => packName n buf comp
+  | .ptr n => packName n buf comp
   | .mx pref n =>
-    match packName n (pos + 2) comp with
+    match packName n (buf ++ u16 pref) comp with
     | .ok (bs, c) => .ok (u16 pref ++ bs, c)
     | .error e => .error e
   | .txt ss =>
@@ -331,15 +360,15 @@ def packBody (b : Body) (pos : Nat) (comp : Option CompMap) : Except Err (Bytes 
     | .ok bs => .ok (bs, comp)
     | .error e => .error e
   | .soa ns mbox serial refresh retry expire minTTL =>
-    match packName ns pos comp with
+    match packName ns buf comp with
     | .error e => .error e
     | .ok (b1, c1) =>
-      match packName mbox (pos + b1.length) c1 with
+      match packName mbox (buf ++ b1) c1 with
       | .error e => .error e
       | .ok (b2, c2) =>
         .ok (b1 ++ b2 ++ u32 serial ++ u32 refresh ++ u32 retry ++ u32 expire ++ u32 minTTL, c2)
   | .srv prio weight port target =>
-    match packName target (pos + 6) none with
+    match packName target (buf ++ u16 prio ++ u16 weight ++ u16 port) none with
     | .ok (bs, _) => .ok (u16 prio ++ u16 weight ++ u16 port ++ bs, comp)
     | .error e => .error e
   | .opt opts => .ok (packOpts opts, comp)
@@ -354,40 +383,43 @@ def packBody (b : Body) (pos : Nat) (comp : Option CompMap) : Except Err (Bytes 
   | .unknown _ data => .ok (data, comp)
 
 /-- `Question.pack`. -/
-def packQuestion (q : Question) (pos : Nat) (comp : Option CompMap) : Except Err (Bytes × Option CompMap) :=
-  match packName q.name pos comp with
+def packQuestion (q : Question) (buf : Bytes) (comp : Option CompMap) : Except Err (Bytes × Option CompMap) :=
+  match packName q.name buf comp with
   | .ok (bs, c) => .ok (bs ++ u16 q.typ ++ u16 q.cls, c)
   | .error e => .error e
 
-/-- `Resource.pack` / `Builder.XResource`: header (with `Type` from the body and the
-final `Length`), then body. -/
-def packResource (r : Resource) (pos : Nat) (comp : Option CompMap) : Except Err (Bytes × Option CompMap) :=
-  match packName r.hdr.name pos comp with
+/-- `Resource.pack` / `Builder.XResource`: header with the `Type` of the body and the caller's
+`Length` as placeholder, then the body, then `fixLen` writes the final `Length` (see the note at
+the top for the consistency check). -/
+def packResource (r : Resource) (buf : Bytes) (comp : Option CompMap) : Except Err (Bytes × Option CompMap) :=
+  match packName r.hdr.name buf comp with
   | .error e => .error e
   | .ok (nb, c1) =>
-    match packBody r.body (pos + nb.length + 10) c1 with
+    let pre := buf ++ nb ++ u16 r.body.realType ++ u16 r.hdr.cls ++ u32 r.hdr.ttl
+    match packBody r.body (pre ++ u16 r.hdr.length) c1 with
     | .error e => .error e
     | .ok (bb, c2) =>
       if bb.length > 65535 then .error .resTooLong
+      else if packBody r.body (pre ++ u16 bb.length) c1 ≠ .ok (bb, c2) then .error .fuel
       else .ok (nb ++ u16 r.body.realType ++ u16 r.hdr.cls ++ u32 r.hdr.ttl ++ u16 bb.length ++ bb, c2)
 
-def packQuestions : List Question → Nat → Option CompMap → Except Err (Bytes × Option CompMap)
+def packQuestions : List Question → Bytes → Option CompMap → Except Err (Bytes × Option CompMap)
   | [], _, comp => .ok ([], comp)
-  | q :: qs, pos, comp =>
-    match packQuestion q pos comp with
+  | q :: qs, buf, comp =>
+    match packQuestion q buf comp with
     | .error e => .error e
     | .ok (b1, c1) =>
-      match packQuestions qs (pos + b1.length) c1 with
+      match packQuestions qs (buf ++ b1) c1 with
       | .error e => .error e
       | .ok (b2, c2) => .ok (b1 ++ b2, c2)
 
-def packResources : List Resource → Nat → Option CompMap → Except Err (Bytes × Option CompMap)
+def packResources : List Resource → Bytes → Option CompMap → Except Err (Bytes × Option CompMap)
   | [], _, comp => .ok ([], comp)
-  | r :: rs, pos, comp =>
-    match packResource r pos comp with
+  | r :: rs, buf, comp =>
+    match packResource r buf comp with
     | .error e => .error e
     | .ok (b1, c1) =>
-      match packResources rs (pos + b1.length) c1 with
+      match packResources rs (buf ++ b1) c1 with
       | .error e => .error e
       | .ok (b2, c2) => .ok (b1 ++ b2, c2)
 
@@ -402,20 +434,19 @@ def packMessageWith (m : Message) (comp : Option CompMap) : Except Err Bytes :=
   else if m.authorities.length > 65535 then .error .tooManyAuthorities
   else if m.additionals.length > 65535 then .error .tooManyAdditionals
   else
-    match packQuestions m.questions 12 comp with
+    let h := packHeader m.hdr m.questions.length m.answers.length m.authorities.length m.additionals.length
+    match packQuestions m.questions h comp with
     | .error e => .error e
     | .ok (b1, c1) =>
-      match packResources m.answers (12 + b1.length) c1 with
+      match packResources m.answers (h ++ b1) c1 with
       | .error e => .error e
       | .ok (b2, c2) =>
-        match packResources m.authorities (12 + b1.length + b2.length) c2 with
+        match packResources m.authorities (h ++ b1 ++ b2) c2 with
         | .error e => .error e
         | .ok (b3, c3) =>
-          match packResources m.additionals (12 + b1.length + b2.length + b3.length) c3 with
+          match packResources m.additionals (h ++ b1 ++ b2 ++ b3) c3 with
           | .error e => .error e
-          | .ok (b4, _) =>
-            .ok (packHeader m.hdr m.questions.length m.answers.length m.authorities.length
-                   m.additionals.length ++ b1 ++ b2 ++ b3 ++ b4)
+          | .ok (b4, _) => .ok (h ++ b1 ++ b2 ++ b3 ++ b4)
 
 /-- `Message.Pack`. -/
 def packMessage (m : Message) : Except Err Bytes := packMessageWith m (some [])
@@ -457,7 +488,8 @@ def optLoop (msg : Bytes) (endOff : Nat) : Nat → Nat → Except Err (List (Nat
         match u16At msg off1 with
         | .error e => .error e
         | .ok (l, off2) =>
-          if msg.length - off2 < l then .error .calcLen
+          if off2 + l > endOff then .error .calcLen  -- the option must end inside the resource
+          else if msg.length - off2 < l then .error .calcLen
           else match optLoop msg endOff fuel (off2 + l) with
             | .ok os => .ok ((code, (msg.drop off2).take l) :: os)
             | .error e => .error e
